@@ -388,23 +388,19 @@ example (dst : Addr) (bytes : List Nat)
     (h : BEvent.nsa dst bytes ∈ (biteration (bstart exCfgS []) (.dgram exSrc exDgramNs) 1000).2.1) :=
   session_nsa_wellformed exCfgS (by decide +kernel) _ (.init []) (.dgram exSrc exDgramNs) 1000 (by decide +kernel) dst bytes h
 
-/-- **Why `LegalName` bounds the length** (finding, confirmed on the C code with harness/h_srv: see the report).  A query whose
-question name has four labels of 63, 63, 63 and 57 bytes plus "t.co" — no '.' or NUL in any label, every label ≤ 63, but 256 bytes
-on the wire, one more than RFC 1035 allows — is accepted by `dns_decode` (`name[256]` holds the 254 characters) and answered
-(here by the 'Z' echo); `putname` re-encodes all 254 characters, so the datagram the server sends carries a 256-byte question
-name: the strict parser rejects it.  `dns_decode` should refuse names of more than 253 characters. -/
+/-- **Names longer than a legal name are refused** (was a defect, found by this model and confirmed on the C code with
+harness/h_srv; repaired in /repo by `fix: refuse query names longer than a legal name`).  A query whose question name has four labels of
+63, 63, 63 and 57 bytes plus "t.co" — no '.' or NUL in any label, every label ≤ 63, but 256 bytes on the wire, one more than RFC 1035
+allows — used to be accepted by `dns_decode` (`name[256]` holds the 254 characters) and answered (here by the 'Z' echo) with a datagram
+carrying a 256-byte question name, which no strict parser accepts.  `dns_decode` now returns -1 for names of more than 253 characters:
+the datagram is dropped and nothing is sent. -/
 def exDgramLong : List Nat :=
   [0x12, 0x34, 1, 0, 0, 1, 0, 0, 0, 0, 0, 0] ++ (63 :: 122 :: List.replicate 62 97) ++ (63 :: List.replicate 63 97) ++
     (63 :: List.replicate 63 97) ++ (57 :: List.replicate 57 97) ++ [1, 116, 2, 99, 111, 0] ++ [0, 10, 0, 1]
 
-def exLongMalformed : Bool :=
-  match (biteration (bstart exCfgS []) (.dgram exSrc exDgramLong) 1000).2.1 with
-  | [.tx _ bytes] => (parseMsg bytes).isNone && decide (IsBytes bytes)
-  | _ => false
-
-example : ByteDgram (.dgram exSrc exDgramLong) ∧ ¬ LegalDgram (.dgram exSrc exDgramLong) ∧
-    ((dnsDecodeQuery { pkt := exDgramLong.toArray, res := #[], cap := 65536 }).map fun d => (d.rv, d.name.length)) = .ok (254, 254) ∧
-    exLongMalformed = true := by
+example : ByteDgram (.dgram exSrc exDgramLong) ∧
+    ((dnsDecodeQuery { pkt := exDgramLong.toArray, res := #[], cap := 65536 }).map fun d => d.rv) = .ok (-1) ∧
+    (biteration (bstart exCfgS []) (.dgram exSrc exDgramLong) 1000).2.1 = [] := by
   decide +kernel
 
 end Iodine.C10
